@@ -252,7 +252,228 @@ def opt_as_ref(eng, st, fr, args, fn, site):
     return deref(eng, st, args[0])
 
 
+def mem_replace(eng, st, fr, args, fn, site):
+    d = args[0]
+    if d[0] != 'ref':
+        return None
+    old = eng.load(st, d[1])
+    eng.write(st, d[1], args[1])
+    return old
+
+
+def mem_swap(eng, st, fr, args, fn, site):
+    a, b = args[0], args[1]
+    if a[0] != 'ref' or b[0] != 'ref':
+        return None
+    va, vb = eng.load(st, a[1]), eng.load(st, b[1])
+    eng.write(st, a[1], vb)
+    eng.write(st, b[1], va)
+    return C(None, '()')
+
+
+def opt_take(eng, st, fr, args, fn, site):
+    d = args[0]
+    if d[0] != 'ref':
+        return None
+    old = eng.load(st, d[1])
+    eng.write(st, d[1], ('agg', OPT, 'None', ()))
+    return old
+
+
+def opt_replace(eng, st, fr, args, fn, site):
+    d = args[0]
+    if d[0] != 'ref':
+        return None
+    old = eng.load(st, d[1])
+    eng.write(st, d[1], ('agg', OPT, 'Some', (args[1],)))
+    return old
+
+
+# ---------------------------------------------------------------- byte-buffer algebra
+# Buffers (arrays, slices, Vec<u8>) are values:  repeat(elem, n) | ne_bytes(x, width) | splice(old, lo, hi, src) |
+# concat(a, b) | resize(a, len, byte) | bytes_empty | from_elem call terms.  `flatten_bytes` turns one into a list of
+# (length, ('fill', byte-term) | ('val', term)) segments or None when some part is not understood.
+
+def ptr_term(v):
+    """a reborrow `&mut *p` of a pointer that is a term (not a store reference) is that pointer"""
+    while v[0] == 'ref' and v[1][0][0] == 'S' and v[1][1] == ():
+        v = v[1][0][1]
+    return v
+
+
+def _split(segs, at):
+    """split the segment list so that a boundary exists at byte offset `at`; None if a value segment would be cut"""
+    out, off = [], 0
+    for n, c in segs:
+        if off < at < off + n:
+            if c[0] != 'fill':
+                return None
+            out.append((at - off, c))
+            out.append((off + n - at, c))
+        else:
+            out.append((n, c))
+        off += n
+    return out
+
+
+def flatten_bytes(v):
+    v = ptr_term(v)
+    if v[0] == 'agg' and v[1] == 'array':
+        return [(1, ('val', o)) for o in v[3]]
+    if v[0] != 't':
+        return None
+    op, a = v[1], v[2]
+    if op == 'repeat' and len(a) == 2 and is_int_const(a[1]):
+        return [(a[1][1], ('fill', a[0]))] if a[1][1] else []
+    if op == 'bytes_empty':
+        return []
+    if op == 'ne_bytes':
+        return [(a[1], ('val', a[0]))]
+    if op == 'call' and a[0].endswith('vec::from_elem') and len(a) >= 4 and is_int_const(a[3]):
+        return [(a[3][1], ('fill', a[2]))] if a[3][1] else []
+    if op == 'concat':
+        x, y = flatten_bytes(a[0]), flatten_bytes(a[1])
+        return None if x is None or y is None else x + y
+    if op == 'resize' and is_int_const(a[1]):
+        x = flatten_bytes(a[0])
+        if x is None:
+            return None
+        n = sum(l for l, _ in x)
+        if a[1][1] >= n:
+            return x + ([(a[1][1] - n, ('fill', a[2]))] if a[1][1] > n else [])
+        x = _split(x, a[1][1])
+        if x is None:
+            return None
+        out, off = [], 0
+        for l, c in x:
+            if off < a[1][1]:
+                out.append((l, c))
+            off += l
+        return out
+    if op == 'splice' and is_int_const(a[1]) and is_int_const(a[2]):
+        lo, hi = a[1][1], a[2][1]
+        x, src = flatten_bytes(a[0]), flatten_bytes(a[3])
+        if x is None or src is None or sum(l for l, _ in src) != hi - lo or hi > sum(l for l, _ in x):
+            return None
+        x = _split(x, lo)
+        x = _split(x, hi) if x is not None else None
+        if x is None:
+            return None
+        out, off, done = [], 0, False
+        for l, c in x:
+            if lo <= off < hi:
+                if not done:
+                    out += src
+                    done = True
+            else:
+                out.append((l, c))
+            off += l
+        return out
+    return None
+
+
+def bytes_len(v):
+    f = flatten_bytes(v)
+    return None if f is None else sum(l for l, _ in f)
+
+
+def _range_of(v):
+    if v[0] == 'agg' and v[1].split('<')[0].endswith('::Range') and len(v[3]) == 2 and \
+            is_int_const(v[3][0]) and is_int_const(v[3][1]):
+        return v[3][0][1], v[3][1][1]
+    return None
+
+
+def buf_index(eng, st, fr, args, fn, site):
+    """buf[lo..hi] as a place-carrying pointer: subslice(ptr, lo, hi)"""
+    r = _range_of(args[1])
+    if r is None:
+        if args[1][0] == 'agg' and args[1][1].split('<')[0].endswith('::RangeFull'):
+            return args[0]
+        return None
+    return T('subslice', ptr_term(args[0]), C(r[0], 'usize'), C(r[1], 'usize'))
+
+
+def copy_from_slice(eng, st, fr, args, fn, site):
+    d = ptr_term(args[0])
+    src = deref(eng, st, ptr_term(args[1]))
+    if d[0] == 'ref':
+        eng.write(st, d[1], src)
+        return C(None, '()')
+    if d[0] == 't' and d[1] == 'subslice' and d[2][0][0] == 'ref':
+        old = eng.load(st, d[2][0][1])
+        eng.write(st, d[2][0][1], T('splice', old, d[2][1], d[2][2], src))
+        return C(None, '()')
+    return None
+
+
+def to_bytes(width):
+    def f(eng, st, fr, args, fn, site):
+        return T('ne_bytes', args[0], width)
+    return f
+
+
+def vec_empty(eng, st, fr, args, fn, site):
+    return T('bytes_empty')
+
+
+def vec_extend(eng, st, fr, args, fn, site):
+    d = ptr_term(args[0])
+    if d[0] != 'ref':
+        return None
+    eng.write(st, d[1], T('concat', eng.load(st, d[1]), deref(eng, st, ptr_term(args[1]))))
+    return C(None, '()')
+
+
+def vec_resize(eng, st, fr, args, fn, site):
+    d = ptr_term(args[0])
+    if d[0] != 'ref':
+        return None
+    eng.write(st, d[1], T('resize', eng.load(st, d[1]), args[1], args[2]))
+    return C(None, '()')
+
+
+def buf_len(eng, st, fr, args, fn, site):
+    n = bytes_len(deref(eng, st, ptr_term(args[0])))
+    return C(n, 'usize') if n is not None else None
+
+
+def same_ptr(eng, st, fr, args, fn, site):
+    return args[0]
+
+
+
 SUMMARIES = {
+    'std::num::<impl i64>::to_ne_bytes': to_bytes(8),
+    'std::num::<impl i32>::to_ne_bytes': to_bytes(4),
+    'std::num::<impl i16>::to_ne_bytes': to_bytes(2),
+    'std::num::<impl u64>::to_ne_bytes': to_bytes(8),
+    'std::num::<impl u32>::to_ne_bytes': to_bytes(4),
+    'std::num::<impl u16>::to_ne_bytes': to_bytes(2),
+    'std::num::<impl u8>::to_ne_bytes': to_bytes(1),
+    'std::array::<impl std::ops::IndexMut<I> for [T; N]>::index_mut': buf_index,
+    'std::array::<impl std::ops::Index<I> for [T; N]>::index': buf_index,
+    'std::slice::index::<impl std::ops::IndexMut<I> for [T]>::index_mut': buf_index,
+    'std::slice::index::<impl std::ops::Index<I> for [T]>::index': buf_index,
+    '<std::vec::Vec<T, A> as std::ops::IndexMut<I>>::index_mut': buf_index,
+    '<std::vec::Vec<T, A> as std::ops::Index<I>>::index': buf_index,
+    'std::slice::<impl [T]>::copy_from_slice': copy_from_slice,
+    'std::slice::<impl [T]>::clone_from_slice': copy_from_slice,
+    'std::slice::<impl [T]>::len': buf_len,
+    'std::vec::Vec::<T, A>::len': buf_len,
+    'std::vec::Vec::<T>::with_capacity': vec_empty,
+    'std::vec::Vec::<T>::new': vec_empty,
+    'std::vec::Vec::<T, A>::extend_from_slice': vec_extend,
+    'std::vec::Vec::<T, A>::resize': vec_resize,
+    '<std::vec::Vec<T, A> as std::ops::Deref>::deref': same_ptr,
+    '<std::vec::Vec<T, A> as std::ops::DerefMut>::deref_mut': same_ptr,
+    'std::vec::Vec::<T, A>::as_slice': same_ptr,
+    'std::vec::Vec::<T, A>::as_mut_slice': same_ptr,
+    'std::array::<impl [T; N]>::as_slice': same_ptr,
+    'std::mem::replace': mem_replace,
+    'std::mem::swap': mem_swap,
+    'std::option::Option::<T>::take': opt_take,
+    'std::option::Option::<T>::replace': opt_replace,
     'std::result::Result::<T, E>::map_err': hof(RES, 'Err', _rb_map_err),
     'std::result::Result::<T, E>::map': hof(RES, 'Ok', _rb_map_res),
     'std::option::Option::<T>::map': hof(OPT, 'Some', _rb_map_opt),
